@@ -470,6 +470,28 @@ impl<'de> Deserialize<'de> for Marker {
     fn deserialize<De: Deserializer<'de>>(d: De) -> Result<Marker, De::Error> { d.deserialize_unit_struct("Marker", MarkerVisitor) }
 }
 
+/// a value that CONTAINS handles: a cons list of `n` nested `Arc`s around a unit struct; every link serialises
+/// transparently (by delegating to the Arc it holds), so the whole chain drives the serializer exactly as `End` does
+#[derive(Clone)]
+struct Chain(Option<Arc<Chain>>);
+impl Chain {
+    fn of_depth(n: usize) -> Chain { let mut c = Chain(None); for _ in 0..n { c = Chain(Some(Arc::new(c))); } c }
+}
+impl Serialize for Chain {
+    fn serialize<Se: Serializer>(&self, s: Se) -> Result<Se::Ok, Se::Error> {
+        match &self.0 { None => s.serialize_unit_struct("End"), Some(a) => a.serialize(s) }
+    }
+}
+impl Drop for Chain {
+    // iterative teardown (a long chain would otherwise recurse in drop)
+    fn drop(&mut self) {
+        let mut cur = self.0.take();
+        while let Some(a) = cur {
+            cur = match Arc::try_unwrap(a) { Ok(mut c) => c.0.take(), Err(_) => None };
+        }
+    }
+}
+
 struct InnerVisitor;
 impl<'de> Visitor<'de> for InnerVisitor {
     type Value = Inner;
@@ -770,6 +792,7 @@ enum P {
     Unit,
     Marker,
     Arr0,
+    Chain(usize),
     Pair(u32, String),
     Seq(Vec<u16>),
     Opt(Option<u8>),
@@ -796,6 +819,7 @@ fn parse_payload(t: &[&str]) -> Option<P> {
         ["unit"] => Some(P::Unit),
         ["marker"] => Some(P::Marker),
         ["arr0"] => Some(P::Arr0),
+        ["chain", n] => n.parse().ok().map(P::Chain),
         ["pair", n, s] => Some(P::Pair(n.parse().ok()?, s_tok(s)?)),
         ["seq", len, xs @ ..] => {
             let len: usize = len.parse().ok()?;
@@ -839,6 +863,7 @@ fn to_v(p: &P) -> V {
         P::Unit => V::Unit,
         P::Marker => V::Unit,
         P::Arr0 => V::Seq(vec![]),
+        P::Chain(_) => V::Unit,
         P::Pair(n, s) => V::Seq(vec![V::U32(*n), V::Str(s.clone())]),
         P::Seq(xs) => V::Seq(xs.iter().map(|x| V::U16(*x)).collect()),
         P::Opt(o) => opt_v(o),
@@ -875,6 +900,7 @@ fn answer(line: &str) -> String {
             P::Unit => ser_case(&(), k),
             P::Marker => ser_case(&Marker, k),
             P::Arr0 => ser_case(&([] as [u8; 0]), k),
+            P::Chain(n) => ser_case(&Chain::of_depth(*n), k),
             P::Pair(n, s) => ser_case(&(*n, s.clone()), k),
             P::Seq(x) => ser_case(x, k),
             P::Opt(x) => ser_case(x, k),
@@ -891,6 +917,7 @@ fn answer(line: &str) -> String {
                 P::Unit => de_case::<()>(&v, k),
                 P::Marker => de_case::<Marker>(&v, k),
                 P::Arr0 => de_case::<[u8; 0]>(&v, k),
+                P::Chain(_) => "bad-query".to_string(),
                 P::Pair(..) => de_case::<(u32, String)>(&v, k),
                 P::Seq(_) => de_case::<Vec<u16>>(&v, k),
                 P::Opt(_) => de_case::<Option<u8>>(&v, k),
@@ -908,6 +935,7 @@ fn answer(line: &str) -> String {
                 P::Unit => dip_case::<()>(&v, k),
                 P::Marker => dip_case::<Marker>(&v, k),
                 P::Arr0 => dip_case::<[u8; 0]>(&v, k),
+                P::Chain(_) => "bad-query".to_string(),
                 P::Pair(..) => dip_case::<(u32, String)>(&v, k),
                 P::Seq(_) => dip_case::<Vec<u16>>(&v, k),
                 P::Opt(_) => dip_case::<Option<u8>>(&v, k),
